@@ -192,7 +192,12 @@ func (ex *Exec) applyContract(st *State, ct *Contract, f *types.Func, recv Val, 
 				accs = append(accs, Acc{Field: f})
 			}
 			oldV := ex.load(st, &RefV{Cell: x.Cell, Path: append(append([]Acc{}, x.Path...), accs...)}, call)
-			nv := ex.havocContents(st, oldV, root+"."+strings.Join(fields, "."))
+			var nv Val
+			if ex.pathThroughObj(st, x, accs) {
+				nv = ex.havocLike(st, oldV, nil, root+"."+strings.Join(fields, "."))
+			} else {
+				nv = ex.havocContents(st, oldV, root+"."+strings.Join(fields, "."))
+			}
 			ex.frameCheck(&RefV{Cell: x.Cell, Path: append(append([]Acc{}, x.Path...), accs...)}, true, call)
 			st.store[x.Cell] = ex.update(st.store[x.Cell], append(append([]Acc{}, x.Path...), accs...), nv)
 			if os, ok := oldV.(*SliceV); ok && os.Tag > 0 {
@@ -207,8 +212,16 @@ func (ex *Exec) applyContract(st *State, ct *Contract, f *types.Func, recv Val, 
 			for _, a := range accs {
 				cur = ex.access(st, cur, a, call)
 			}
-			nv := ex.havocContents(st, cur, root+"."+strings.Join(fields, "."))
+			var nv Val
+			if _, isObj := rv.(*ObjV); isObj && len(accs) > 0 {
+				nv = ex.havocLike(st, cur, nil, root+"."+strings.Join(fields, "."))
+			} else {
+				nv = ex.havocContents(st, cur, root+"."+strings.Join(fields, "."))
+			}
 			post[root] = ex.update(post[root], accs, nv)
+			if o, isObj := rv.(*ObjV); isObj && len(accs) > 0 {
+				ex.replaceObj(st, o, post[root].(*ObjV))
+			}
 			switch os := cur.(type) {
 			case *SliceV:
 				if os.Tag > 0 {
@@ -244,7 +257,14 @@ func (ex *Exec) applyContract(st *State, ct *Contract, f *types.Func, recv Val, 
 	// results
 	var result Val
 	var results []Val
-	if ct.Returns != "" {
+	if rp, ok := ct.Opts["result"]; ok {
+		v, ok := bind[rp]
+		if !ok {
+			panic(fmt.Errorf("opt result = %s: unknown parameter in %s", rp, ct.Key))
+		}
+		result = v
+		results = []Val{v}
+	} else if ct.Returns != "" {
 		result = ex.freshByShape(st, ct.Returns, "r."+shortName(strings.TrimSuffix(ct.Key, ".DefineGadget")))
 		results = []Val{result}
 	} else {
@@ -683,7 +703,27 @@ func (ex *Exec) evalKnownExtern(st *State, key string, recv Val, recvExpr ast.Ex
 		st.assume(Not(Eq(e, Zero)))
 		return SV{T: e}, true
 	case "fmt.Sprintf":
+		if f, ok := args[0].(SV); ok && f.T.Op == "strlit" && f.T.Name == "0x%s" {
+			if rest, ok := args[1].(*SliceV); ok && rest.IsV && len(rest.Vec) == 1 {
+				if a, ok := rest.Vec[0].(SV); ok && a.T.Sort == SStr {
+					return SV{T: App("str.concat", SStr, StrLit("0x"), a.T)}, true
+				}
+			}
+		}
+		ex.note("fmt.Sprintf result modelled as an unconstrained string")
 		return SV{T: Fresh("str", SStr)}, true
 	}
 	return nil, false
+}
+
+// pathThroughObj reports whether the path from the pointee of r along accs crosses an opaque object's ghost field.
+func (ex *Exec) pathThroughObj(st *State, r *RefV, accs []Acc) bool {
+	v := ex.load(st, r, nil)
+	for _, a := range accs {
+		if _, ok := v.(*ObjV); ok {
+			return true
+		}
+		v = ex.access(st, v, a, nil)
+	}
+	return false
 }
